@@ -19,7 +19,7 @@ RULE = ("(agg) arrays of 1-4 dimensions (1-5 entries each) of dyadic values x ev
         "and via `-T h -Tagg f -Tx axis -m mae -type csv`. Non-trivial: the window covers >=2 and fewer than all entries "
         "at some position; distinct by hash.")
 ASSUMPTIONS = [
-    "lead times / times are ascending inside each file when -T is used (what real files have)",
+    "the -T window is defined by coordinate value: the API campaign stores times / lead times in any order (the csv campaign writes text files, which the reader sorts)",
     "a missing value inside a window makes every statistic but the count missing",
     "pre-aggregated values are float32 in the tool: tolerance 2e-6 relative",
 ]
